@@ -476,7 +476,7 @@ func C20() *engine.Check {
 	return &engine.Check{
 		Property: "C20",
 		Level:    "model_checking",
-		Subs:     []*engine.Sub{c20SeqSub(), c20OptSub(), sched, conc, c20RaceSub()},
+		Subs:     []*engine.Sub{c20SeqSub(), c20OptSub(), c20ManyIssuersSub(), sched, conc, c20RaceSub()},
 		Assumptions: []string{
 			"go-ucan has no synchronisation operations of its own; the cooperative scheduler interleaves at the points where read-only operations call back into caller code, and sub-operation interleavings are covered by the separate free-running race-detector pass over operation pairs",
 			"Ed25519 keys (deterministic signatures) so that sealing results are comparable; Meta.String is compared as a set of lines because it iterates a Go map",
